@@ -10,7 +10,11 @@ Import ListNotations.
 Open Scope N_scope.
 
 Definition c10_op (o : op) : bool :=
-  match o with OpEvent _ | OpSocks => false | _ => true end.
+  match o with
+  | OpEvent _ | OpSocks => false
+  | OpSaveDuring _ ds => forallb (fun d => match d with DEvent _ => false | _ => true end) ds
+  | _ => true
+  end.
 
 Definition oracle (i : cfg_input) (tr : list obs) : bool := cfg_oracle i tr.
 
@@ -46,7 +50,7 @@ Section Mon.
   Definition scalar_keys (pend : list (bytes * ival)) : list bytes :=
     concat (map (fun p : bytes * ival => match snd p with IScalar _ => [fst p] | _ => [] end) pend).
 
-  Definition mon_step (m : mon) (o : op) : mon :=
+  Definition mon_step_gen (flightm : mon -> option N -> list dop -> mon) (m : mon) (o : op) : mon :=
     let st := m_st m in
     let st' := spec_next opts defaults st o in
     match o with
@@ -89,7 +93,53 @@ Section Mon.
         | _, _ => m
         end
     | OpRead _ | OpNeedsSave | OpSocks => m
+    | OpSaveDuring rej ds => flightm m rej ds
     end.
+
+  (* ---- OpSaveDuring: the monitor carries the unanswered snapshots along ---- *)
+  Definition mon_base : mon -> op -> mon := mon_step_gen (fun m _ _ => m).
+  Definition accepted (rej : option N) : bool := match rej with None => true | Some _ => false end.
+
+  (* save() is called: like OpSave up to the answer (scalars are re-read into config: detached) *)
+  Definition mon_send (rej : option N) (mq : mon * list (list (bytes * ival))) : mon * list (list (bytes * ival)) :=
+    let m := fst mq in
+    match s_pend (m_st m) with
+    | [] => mq
+    | pend => ({| m_st := m_st m; m_det := scalar_keys pend;
+                  m_f1 := m_f1 m || has_empty_list pend; m_f3 := m_f3 m; m_fs := m_fs m;
+                  m_f4 := m_f4 m || (accepted rej && has_odd_list pend) |},
+               snd mq ++ [pend])
+    end.
+
+  Definition event_on_pending (st : ost) (d : dop) : bool :=
+    match d with
+    | DEvent items => existsb (fun it : bytes * option bytes => dmem (canon opts (fst it)) (s_pend st)) items
+    | _ => false
+    end.
+
+  Definition mon_dop (rej : option N) (mq : mon * list (list (bytes * ival))) (d : dop) : mon * list (list (bytes * ival)) :=
+    match op_of_dop d with
+    | None => mon_send rej mq
+    | Some o =>
+        let m := fst mq in
+        let m1 := mon_base m o in
+        let hot := accepted rej && negb (is_nil (snd mq)) in
+        ({| m_st := m_st m1; m_det := m_det m1; m_f1 := m_f1 m1; m_f3 := m_f3 m1;
+            m_fs := m_fs m1 || (hot && event_on_pending (m_st m) d); m_f4 := m_f4 m1 |}, snd mq)
+    end.
+
+  Definition mon_flight (m : mon) (rej : option N) (ds : list dop) : mon :=
+    let mq := fold_left (mon_dop rej) ds (mon_send rej (m, [])) in
+    let m1 := fst mq in
+    {| m_st := fold_left (answer opts rej) (snd mq) (m_st m1);
+       (* an acknowledged option is no longer detached; one changed since the save was sent still is *)
+       m_det := if accepted rej && negb (is_nil (snd mq))
+                then filter (fun cn => dmem cn (s_pend (fold_left (answer opts rej) (snd mq) (m_st m1)))) (m_det m1)
+                else m_det m1;
+       m_f1 := m_f1 m1; m_f3 := m_f3 m1;
+       m_fs := m_fs m1 || (accepted rej && flight_ambiguous opts defaults (m_st m) ds); m_f4 := m_f4 m1 |}.
+
+  Definition mon_step : mon -> op -> mon := mon_step_gen mon_flight.
 
   Definition mon_run (m : mon) (ops : list op) : mon := fold_left mon_step ops m.
 End Mon.
@@ -107,7 +157,11 @@ Definition c10_known (i : cfg_input) : bool :=
   emptied_list_saved i || edit_while_detached i || odd_element_saved i.
 
 (* outside the envelope (history dependent): config.A = config.B while B has a pending change --
-   whether a read of B then shows the pending or the saved list is what finding F3 is about *)
+   whether a read of B then shows the pending or the saved list is what finding F3 is about; and a
+   CONF_CHANGED that names an option of an unanswered save Tor then acknowledges (in a real Tor the
+   event that follows the acknowledged SETCONF settles the view; the histories have no such echo); and
+   an option assigned again while its save is unanswered that ends up with the acknowledged value
+   (Spec.CfgOracle.flight_ambiguous) *)
 Definition copy_of_pending (i : cfg_input) : bool := m_fs (mon_of i).
 
 Definition c10_scope (i : cfg_input) : bool :=
